@@ -103,6 +103,17 @@ theorem C07_mapsites_covered :
     siteTable.all (fun e => Facts.mapRangeSites.any (fun s => (s.1, s.2.1, s.2.2.1) = e.1)) = true ∧
     Facts.mapRangeSites.all (fun s => s.2.2.2 = 1) = true := by decide
 
+/-- which sites still need a condition on the input: only the directory re-parse of `extractStructFields` (finding
+    F_structTwice) and the `-v` debug line of LoadPackage (stderr, not file bytes); every other site has its
+    order-independence lemma for ALL inputs (the inputs being maps: distinct keys).
+    Other places where a Go map could reach the output without a `range` statement, with the reason they cannot:
+    the one template `range` over a map (`restclient.tmpl`, `index $.DefaultHeaders $httpmethod`) – text/template visits
+    map keys in sorted order; `logx.DebugJSON` (-v) – encoding/json sorts map keys; all other map uses are look-ups. -/
+theorem C07_sites_conditional :
+    (siteTable.filter (fun e => conditional e.2)).map (·.1) =
+      [("internal/restclient", "extractStructFields", "pkg.Files"), ("internal/restclient", "extractStructFields", "pkgs"),
+       ("internal/shoot", "(*GeneratorBase).LoadPackage", "g.overlay")] := by decide
+
 /-- no goroutine, select, clock, random number, process identity or environment variable is used; the only
     location-dependent calls are `filepath.Abs` (compared with `pkg.Dir`, both absolute: the comparison is
     location-independent) and `build.Import` for a REST parameter struct from another package -/
